@@ -1,5 +1,16 @@
 # -*- coding: utf-8 -*-
-"""C17 - rounding and integer functions meet their specs; radix conversions invert"""
+"""C17 - rounding and integer functions meet their specs; radix conversions invert
+
+case kinds (judged by the oracle and compared with the model unless noted):
+  round      ROUND/ROUNDUP/ROUNDDOWN(number, int digits); `guarded` = far-away digits, each call budgeted; `nomodel` = oracle only
+  cf         CEILING/FLOOR and their .MATH/.PRECISE names, one or two arguments
+  unary      INT/EVEN/ODD/SIGN            div        QUOTIENT/MOD            fact       FACT/FACTDOUBLE (budgeted)
+  hexrt      HEX2DEC(DEC2HEX(n))          hexout     HEX2DEC/DEC2HEX outside the 40-bit range: an error
+  basert     DECIMAL(BASE(n,r),r) (budgeted)         baseguard  BASE with radix outside 2..36 / negative number: an error
+  roman      ROMAN(n, 0..4) and ARABIC(ROMAN(n)) (budgeted)       complex    IMREAL/IMAGINARY(COMPLEX(a,b))
+  formula    fixed formula text with the expected value or error, through Parser.parse (budgeted)
+  hex, base, arabic, misc   model correspondence only (the oracle is silent); misc does not count as non-trivial
+"""
 import math
 import sys
 from fractions import Fraction
@@ -15,54 +26,134 @@ _EN = ['HEX2DEC', 'DEC2HEX', 'COMPLEX', 'IMREAL', 'IMAGINARY', 'DELTA']
 FUNCTIONS = ['hotxlfp.formulas.mathtrig:%s' % n for n in _MT] + ['hotxlfp.formulas.engineering:%s' % n for n in _EN] + \
     ['hotxlfp.formulas.utils:parse_number', 'hotxlfp.formulas.utils:parse_complex', 'hotxlfp.formulas.utils:any_is_error',
      'hotxlfp.helper.number:to_number']
-RULE = ('ROUND/ROUNDUP/ROUNDDOWN on ints (small, large, multiples of powers of ten), dyadic fractions (k/2^j, incl. exact ties) and '
-        'decimal fractions of either sign x digits -6..6; CEILING/FLOOR (and the .MATH/.PRECISE aliases, one- and two-argument) on '
-        'the same numbers x significances of either sign (ints, dyadic, decimal, 0); INT/EVEN/ODD/SIGN on the same numbers and 0; '
-        'QUOTIENT/MOD on all sign combinations incl. divisor 0; FACT on 0..175 and FACTDOUBLE on 0..170 and 290..306 (both range '
-        'ends: 170!/171, 300!!/301), fractions next to the ends (170.5, 170.9, 300.9, ...), negatives and huge arguments (10^6 .. '
-        '10^30, 1e300, 2^1024) which must be errors at once; ROUND/ROUNDUP/ROUNDDOWN with digits at and beyond the shortcuts of the '
-        'code for far-away places (307..310, 323/324, 400, 1000, 1073..1076, 5000 .. 10^30 and their negatives, -1023..-1026, '
-        '-1030..-1033) on 0, ints of either sign up to 2^53, TRUE, dyadic fractions, the smallest normal and the smallest denormal '
-        'double, and ints beyond the doubles (10^310, 2^1024, 2^1030-1, 2^1030, 10^400: bit lengths around and above 1024) with '
-        'digits on both sides of -bit length - within the region where the float intermediates of the code neither overflow nor '
-        'underflow (see TRUSTED) - each call under a line-event AND a wall-clock budget; '
-        'HEX2DEC(DEC2HEX(n)) on the boundary sets +-2^39+-3, +-2^40+-3, 0, +-1 and seeded n of the 40-bit range (quick 10^5, '
-        'thorough 10^6) and outside it; DECIMAL(BASE(n,r),r) for every r in 2..36 x seeded 0<=n<2^39 (plus 0, 1, r-1, r, r^k, 2^39-1), '
-        'BASE with r outside 2..36 / negative n / float arguments / places, each BASE/DECIMAL/ROMAN/ARABIC/FACT call under a '
-        'line-event step budget; ROMAN(n,form) for ALL 1..3999 x forms 0..4 (complete) with ARABIC(ROMAN(n)); ARABIC on seeded '
-        'near-numeral strings; COMPLEX/IMREAL/IMAGINARY on integer parts of either sign and 0; argument coercions (numeric text, '
-        'logicals, blank, error values, wrong arity) for the model correspondence only.  Texts given to int(text, radix) are ASCII '
-        '(plain digit strings, plus a few with sign/blanks/underscore/0x prefix).  Non-trivial = a call whose arguments lie in the '
-        'quantified domain and whose result is a value (or a documented error for an out-of-range argument).')
-TRUSTED = ['Python float arithmetic is modelled by exact rational arithmetic (results compared within 4 ulp; a scaled value within '
-           '2^-48 of an integer may fall on either side); float OVERFLOW is not modelled: ROUNDUP/ROUNDDOWN of a float whose scaled '
-           'magnitude |x|*10^digits exceeds the double range raise in the code (#ERROR!), and so does EVERY float with an int digits '
-           'in 309..1074 or -1024..-309 (10**|digits| does not convert to a float); ROUNDUP of an int i with i / 10^-digits below 2^-1074 '
-           'underflows to 0.0 and returns 0; ints beyond 2^53 lose digits in abs(i) / 10**k and in the float result for digits >= 0 - '
-           'such inputs are not generated (reported as candidate findings)',
+RULE = ('seeded counts are quick / thorough (one number: both tiers) and are multiplied by scale, fixed lists and grids are '
+        'not.  round: ROUND/ROUNDUP/ROUNDDOWN x digits -6..6 on 1500 / 12000 seeded numbers per function (ints -30..30, ints '
+        'below 10^8, k*10^j with k < 2000 and j 1..6, dyadic fractions k/2^j with k < 2^20 and j 1..10, exact ties '
+        '(2k+1)*10^j/2 and (2k+1)/8, decimal fractions below 10^4 with 1..4 places, 13 specials such as 0, 0.0, +-0.5, +-1e-7, '
+        '0.1, 1000.1; either sign) plus a grid of 282 per function (every digits x multiples of 10^-digits, the ints next to '
+        'them, eighths); cf: CEILING/FLOOR (2000 / 15000 each; the .MATH and .PRECISE names 1/5 each; 8% one-argument) on the '
+        'same numbers x significance (80% one of 30 fixed ints / dyadic / decimal values of either sign, 18% a seeded number, '
+        '2% 0); unary: INT/EVEN/ODD/SIGN on 24 fixed values (-6..6, 0.0, +-0.5, +-1e-9, +-3.999, ...) and 800 / 6000 seeded '
+        'numbers each; div: QUOTIENT/MOD on a 10 x 11 grid of all sign combinations incl. divisors 0 and 0.0 and 1500 / 12000 '
+        'seeded pairs each (3% divisor 0); fact: FACT on 0..175, FACTDOUBLE on 0..175 and 290..306 (both range ends: 170!/171, '
+        '300!!/301), 34 fixed arguments each (fractions next to the ends: 170.5, 170.9, 300.9, ...; negatives; huge ones 10^6 '
+        '.. 10^30, 1e300, 1.5e308, 2^1024, which must be errors at once) and 40 / 400 seeded each (0..399, around both ends, '
+        'eighths, 10^3..10^39, 1e3..1e299).  round at far-away places (guarded: each call budgeted): digits 307..310, 323, '
+        '324, 400, 1000, 1023..1026, 1073..1076, 1100, 1101, 5000, 10^6, 10^15, 10^30, their negatives and -1030..-1033, '
+        '-1329..-1331, -2001, -2002 (53 values at and beyond the shortcuts of the code: digits > 1074, -digits > max(1024, bit '
+        'length)) x 31 numbers: 0, 0.0, ints of either sign up to 2^53, TRUE, dyadic fractions, +-2^-1022 (smallest normal), '
+        '5e-324 (smallest denormal) and 11 ints beyond the doubles (+-10^310, +-2^1024, 2^1024-1, 2^1030-1, +-2^1030, 10^400, '
+        '7*10^330, 2^2000: bit lengths 1024..2001, digits on both sides of -bit length) - all 1643 pairs for ROUND, for '
+        'ROUNDUP/ROUNDDOWN the 2262 pairs within the region where the float intermediates of the code neither overflow, '
+        'underflow nor lose digits (see TRUSTED); plus 60 / 600 seeded per function (number as above or an int below 10^39, '
+        '15% an int in 2^1000..2^1099; digits +- one of 300..329, 1015..1109, 330..4999, 10^4..10^39; ROUNDUP/ROUNDDOWN pairs '
+        'outside that region get digits redrawn beyond a shortcut: 1076..6075 or -(max(1024, bit length) + 1..50)).  hexrt: '
+        'HEX2DEC(DEC2HEX(n)) on 43 boundary values (+-2^39+-3, +-2^40+-3, 0+-3, 15, 16, +-255, +-256, +-10^12), 10^5 / 10^6 '
+        'seeded n of the 40-bit range and 300 seeded +-n in 2^39..2^44; hexout: 6 HEX2DEC texts of more than 40 bits or with a '
+        'minus sign, 6 DEC2HEX numbers outside the range.  basert: DECIMAL(BASE(n,r),r) for every r in 2..36 x 70 / 610 n in '
+        '0..2^39-1 (0, 1, r-1, r, r+1, r^2-1, r^2, a power of r, 2^39-2, 2^39-1, the rest seeded with bit lengths 1..39); '
+        'baseguard: BASE on 9 fixed pairs, 250 / 2000 radices outside 2..36 (14 values -10^6..10^6 incl. 0, 1, 37, 1.5, 0.5, '
+        '36.5, 1.999) x +-n below 10^6, 150 / 1000 negative n with a radix in 2..36.  roman: ROMAN(n,form) for ALL 1..3999 x '
+        'forms 0..4 (complete) with ARABIC(ROMAN(n)).  complex: IMREAL/IMAGINARY(COMPLEX(a,b)) on a 9 x 6 grid of ints (0, '
+        '+-1, .., +-(2^53-1)) and 400 / 3000 seeded pairs below 10^1..10^14 in magnitude.  formula: 86 fixed formulas with '
+        'expected value or error (the statement\'s named behaviours, the repaired defects, the range ends of FACT/FACTDOUBLE, '
+        'far-away digits up to 10^15), through Parser.parse.  Correspondence only (oracle silent): hex (HEX2DEC on 400 / 3000 '
+        'seeded hex texts of 1..11 characters in either case and 17 fixed ones - blank, padded, sign, underscore, 0x/0b '
+        'prefix, tab/newline, 40-bit edge values; DEC2HEX(n, places -1..12) 300 / 2000), base (BASE with places -1..44, '
+        'fractional n, float or half-integral radix, float places: 200 / 1500; DECIMAL on 200 / 1500 seeded texts of 1..8 '
+        'digits of the radix, letters in lower case, 10% admitting the next digit, and on 32 fixed (text, radix) pairs: radix '
+        '0/1/37/-2/float/text, prefixes, sign, blanks, underscores, non-texts, 40-bit edge values), arabic (500 / 4000 seeded '
+        'near-numerals: a classic numeral, half of them with one symbol inserted, or 0..6 random symbols, 15% in lower case; '
+        '29 fixed: empty, MMMM, IIII, IC, trailing newlines, non-texts, repeated subtractive pairs) and misc (812 fixed: ROMAN '
+        'with numbers/forms out of range, IMREAL/IMAGINARY on 29 texts and 5 non-texts, COMPLEX, DELTA, float digits beyond '
+        'the shortcuts, and the argument coercions of every function - numeric and padded text, logicals, blank, error values, '
+        'underscore/0x text, wrong arity).  Texts given to int(text, radix) are ASCII.  Budget: every '
+        'BASE/DECIMAL/ROMAN/ARABIC/FACT/FACTDOUBLE call, every guarded round call and every formula case (the whole parse) '
+        'runs under 100000 line events (all Python frames of the call) AND 5 s of processor time of the process (0.5 s once 5 '
+        'calls have not returned); exceeding either counts as "does not return": an oracle failure (formula cases: see '
+        'ASSUMPTIONS) and a disagreement.  Model: every case is compared with the Lean model (hexrt/basert as one evaluated '
+        'formula, the inner value read from the model\'s call log; roman/complex/formula as formula batches; the rest as '
+        'direct builtin calls; floats within 4 ulp, ints and types exact, model "no opinion" never a disagreement) except '
+        'ROUND(float, digits > 2000) (40 grid pairs and the seeded ones alike: oracle only) and IMREAL/IMAGINARY("1_0") (misc: '
+        'neither).  search (a proof or the correspondence broke, no oracle failure yet): all kinds but hexrt and roman '
+        'regenerated at scale 4, oracle only, stops at the first failure.  Non-trivial = every distinct case of every kind but '
+        'misc (no weights: a case counts once), which includes the correspondence-only kinds hex / base / arabic, '
+        'CEILING/FLOOR with significance 0 and calls that did not return.')
+TRUSTED = ['Python float arithmetic is modelled by exact rational arithmetic (results compared within 4 ulp; where an argument '
+           'is a float and the scaled value within 2^-48 (relative) of an integer, ROUNDUP/ROUNDDOWN/CEILING/FLOOR/QUOTIENT '
+           'may land one unit from the model\'s result, MOD within 8 ulp of it or one divisor away); float OVERFLOW is not '
+           'modelled: ROUNDUP/ROUNDDOWN of a float whose scaled magnitude |x|*10^digits exceeds the double range raise in the '
+           'code (#ERROR!), and so does EVERY float (0.0 too) with an int digits in 309..1074 or -1024..-309 (10**|digits| '
+           'does not convert to a float); ROUNDUP of a number whose quotient by 10^-digits underflows to 0.0 returns 0; ints '
+           'beyond 2^53 lose digits in abs(i) / 10**k and in the float result for digits >= 0 - such ROUNDUP/ROUNDDOWN inputs '
+           'are not generated in the far-away stream (reported as candidate findings).  Kept there: digits beyond a shortcut; '
+           'the int 0; floats with |digits| <= 308 and - digits 0..22 - an exact product x*10^digits, - digits > 22 - |x| < '
+           '1e-290 and x*10^digits < 1e307, - digits < 0, ROUNDUP - a quotient of at least 2^-1000; ints up to 2^53 for digits '
+           '>= 0, for digits < 0 ints whose quotient is below 2^52 and integral or more than 1/1000 from an integer, not below '
+           '2^-1000 for ROUNDUP.  ROUND is not filtered',
            'ROUND(float, digits > 2000) is judged by the oracle only (the executable model would compute 10^digits)',
-           'Python builtins round(), math.ceil/floor, int(text, base), hex(), str.rjust, complex() as described in the model files',
-           'sys.settrace line-event counting as the termination observer (budget %d line events per call), plus a wall-clock alarm '
-           '(%d s, SIGPROF after that much processor time, raised into the call) for the calls whose work sits in C (big-integer powers and factorials)' % (100000, 5)]
-ASSUMPTIONS = ['a float argument is judged by the exact value of the double; a result may differ from the exact multiple by 2 ulp',
-               'the documented range of FACT / FACTDOUBLE ends where the result stops being an XL number (a finite double): from the '
-               'first n on with n! (n!!, and every later one) beyond the largest double - 171 and 301, computed by the oracle itself - '
-               'an error is demanded ("arguments outside the documented range give an error rather than a value"); below it the exact integer',
-               'ROUND/ROUNDUP/ROUNDDOWN: where every multiple of 10^-digits the statement admits is beyond the largest double (ROUNDUP of a '
-               'non-zero number with digits < -308) an error is accepted as well as the exact integer; for |digits| > 1100 the oracle does not '
-               'form 10^digits: digits > 1100 demands the number itself (every double is a multiple of 2^-1074, hence of 10^-digits), '
-               'digits < -1100 demands 0 (ROUNDUP of a non-zero number: an error) for numbers below 10^1000 in magnitude',
-               'for inputs whose scaled value is not exactly representable (decimal fractions) the bounds are relaxed by 2 ulp of the input',
-               'CEILING(positive number, negative significance) may be the upward multiple (as the code does) or #NUM! (as Excel does)',
+           'Python builtins round(), math.ceil/floor, int(text, base), hex(), str.rjust, complex() as described in the model '
+           'files',
+           'sys.settrace line-event counting as the termination observer (budget %d line events per budgeted call, counted '
+           'over all Python frames of the call), plus an interval timer on the processor time of the process (ITIMER_PROF: '
+           'SIGPROF after %d s, a tenth of that once five calls have not returned - counted per process, never reset; raised '
+           'into the call) for the calls whose work sits in C (big-integer powers and factorials); processor time, not '
+           'wall-clock, so that a loaded machine does not turn a fast call into a hang; outside the main thread only line '
+           'events are counted' % (100000, 5),
+           'the budget exception is a BaseException: Parser.call_function and Parser.parse catch Exception only and let it '
+           'through']
+ASSUMPTIONS = ['a float argument is judged by the exact value of the double (TRUE as 1); a result may differ from the exact '
+               'multiple by 2 ulp of the result; whether a ROUND*/CEILING/FLOOR/MOD result is an int or a float is left to the '
+               'model correspondence',
+               'ROUND: any multiple within half a unit (inclusive) is accepted, so an exact tie may go either way; '
+               'ROUNDUP/ROUNDDOWN: the multiple m with |x| <= |m| < |x| + unit resp. |x| - unit < |m| <= |x|, not of the '
+               'opposite sign; the fixed formulas pin the half-even results of the code (ROUND(2.5,0) = 2, ROUND(25,-1) = 20, '
+               'ROUND(-1.25,1) = -1.2)',
+               'the documented range of FACT / FACTDOUBLE ends where the result stops being an XL number (a finite double): '
+               'from the first n on with n! (n!!, and every later one) beyond the largest double - 171 and 301, computed by '
+               'the oracle itself - an error is demanded ("arguments outside the documented range give an error rather than a '
+               'value"), fractions (171.5) included; below it the exact int of the truncated argument (FACT(170.9) = 170!); '
+               'every negative argument (-0.5 too): an error',
+               'ROUND/ROUNDUP/ROUNDDOWN: where every multiple of 10^-digits the statement admits is beyond the largest double '
+               '(ROUNDUP of a non-zero number with digits < -308; any of the three on an int itself beyond the doubles) an '
+               'error is accepted as well as the exact integer; for |digits| > 1100 the oracle does not form 10^digits: digits '
+               '> 1100 demands the number itself (every double is a multiple of 2^-1074, hence of 10^-digits), digits < -1100 '
+               'demands 0 (ROUNDUP of a non-zero number: an error, or the exact int +-10^-digits while -digits <= 10000) for '
+               'numbers below 10^1000 in magnitude (larger ones are not generated)',
+               'for inputs whose scaled value is not exactly representable (floats whose denominator exceeds 2^12: decimal '
+               'fractions) the bounds are relaxed by 2 ulp of the input (CEILING/FLOOR: of input plus result; MOD: 4 ulp of '
+               'number plus divisor; QUOTIENT: the nearest integer is accepted when the quotient is within 2^-48 of it)',
+               'documented side of CEILING: above the number, but below (away from zero) for a negative number with negative '
+               'significance; of FLOOR: below, but above (toward zero) for a negative number with negative significance; '
+               'FLOOR(positive number, negative significance) must be #NUM!; one argument means significance 1; the '
+               '.MATH/.PRECISE names are judged like the plain ones',
+               'CEILING(positive number, negative significance) may be the upward multiple (as the code does) or #NUM! (as '
+               'Excel does)',
                'CEILING/FLOOR with significance 0 are not judged (the statement quantifies over significances of either sign)',
-               'ARABIC(ROMAN(n, form)) = n is demanded for the classic form 0 only; the other forms must denote n under the '
-               'additive/subtractive reading',
-               'COMPLEX parts are judged for |a|,|b| < 2^53 (a complex number stores doubles)',
-               'DECIMAL(BASE(n,r),r) = n is demanded for n < 2^39 (DECIMAL applies the 40-bit two\'s-complement adjustment above)']
+               'INT/EVEN/ODD/SIGN/QUOTIENT must return ints; EVEN(0) = 0, ODD(0) = 1; MOD has the sign of the divisor, is '
+               'smaller than it in magnitude and number - MOD is an integral multiple of the divisor; a zero divisor (0 or '
+               '0.0) must give an error',
+               '"an error" is any error value (the code is not compared, not for the fixed formulas either) except #NUM! for '
+               'FLOOR / CEILING of a positive number with negative significance; the expected value of a fixed formula is '
+               'compared with == (2.0 = 2), logicals rejected',
+               'HEX2DEC(DEC2HEX(n)) = n (an int) for -2^39 <= n < 2^39; outside it DEC2HEX must give an error (HEX2DEC of that '
+               'is not judged); HEX2DEC of a text of more than 40 bits or with a minus sign must give an error',
+               'ARABIC(ROMAN(n, form)) = n is demanded for the classic form 0 only (form omitted); every form 0..4 must denote '
+               'n under the additive/subtractive reading (a symbol before a larger one is subtracted) - how concise a form is '
+               'is not judged',
+               'COMPLEX parts are judged for |a|,|b| < 2^53 (a complex number stores doubles); IMREAL/IMAGINARY must return '
+               'them as ints',
+               'DECIMAL(BASE(n,r),r) = n is demanded for n < 2^39 (DECIMAL applies the 40-bit two\'s-complement adjustment '
+               'above); BASE must give a non-empty string of the digits 0-9A-Z (upper case) below the radix; a radix outside '
+               '2..36 (fractional ones such as 1.5 and 36.5 too) or a negative number (-0.5 too) must give an error of any '
+               'kind',
+               'a budgeted call that exceeds a budget is a failure ("every call terminates"); a fixed formula that does not '
+               'return is turned into an error record, so it fails the oracle only where a value was expected (and fails the '
+               'correspondence unless the model has no opinion)']
 EXHAUSTIVE = {'quick': False, 'thorough': False}
 
 BUDGET = 100000
-WALL = 5          # seconds of wall-clock per budgeted call (C-level work does not produce line events)
+WALL = 5          # seconds of processor time (ITIMER_PROF) per budgeted call (C-level work does not produce line events)
 DBL_MAX = Fraction(sys.float_info.max)
 ERRS = ['#ERROR!', '#DIV/0!', '#NAME?', '#N/A', '#NULL!', '#NUM!', '#REF!', '#VALUE!']
 H = 1 << 39
@@ -90,7 +181,7 @@ _HANGS = [0]
 
 
 def budgeted(f):
-    """run f() counting line events; -> ('ok', value) | ('hang', steps)"""
+    """run f() counting line events (budget BUDGET) under a processor-time timer (WALL s); -> ('ok', value) | ('hang', steps)"""
     count = [0]
 
     def tr(frame, event, arg):
@@ -111,7 +202,7 @@ def budgeted(f):
         signal.setitimer(signal.ITIMER_PROF, WALL if _HANGS[0] < 5 else WALL / 10.0)
         armed = True
     except (ValueError, AttributeError, ImportError):
-        pass          # not the main thread / no SIGALRM: line events only
+        pass          # not the main thread / no SIGPROF or setitimer: line events only
     sys.settrace(tr)
     try:
         return ('ok', f())
@@ -632,6 +723,8 @@ def oracle(c, ans):
             return 'IMREAL/IMAGINARY(COMPLEX(%d,%d)) = %r, %r' % (c['a'], c['b'], re, im)
         return None
     if k == 'formula':
+        if isinstance(ans.get('error'), str) and ans['error'].startswith('does not return'):
+            return '%s does not return within the budget' % c['f']
         if 'want' in c:
             w = c['want']
             if isinstance(w, dict):
@@ -640,7 +733,7 @@ def oracle(c, ans):
             elif ans['error'] is not None or ans['result'] != w or isinstance(ans['result'], bool):
                 return '%s = %r, expected %r' % (c['f'], ans, w)
         return None
-    return None       # misc / arabic / hex / base with places: correspondence only
+    return None       # misc / arabic / hex / base (BASE with places or float arguments, DECIMAL texts): correspondence only
 
 
 def describe(c):
